@@ -518,6 +518,42 @@ class ClimAddSpellings(Case):
             return "tspan=(%r, %r): raised %r" % (sa, sb, ex)
         return None
 
+    # open-ended sentinels: bounds that lie outside what datetime64[ns] can hold (before 1677, after 2262)
+    FAR = [
+        ("2000-01-01", "9999-12-31", ["1999-12-31", "2000-01-01", "2100-01-01", "2262-01-01"], [15.0, 15.0, 30.0, 15.0], [2, 1, 3, 1]),
+        ("1000-01-01", "3000-01-01", ["1700-01-01", "2000-01-01", "2262-01-01"], [15.0, 30.0, 15.0], [1, 3, 1]),
+        ("1000-01-01", "2000-01-01", ["1700-01-01", "2000-01-01", "2000-01-02"], [15.0, 30.0, 15.0], [1, 3, 2]),
+    ]
+
+    def one_far(self, values):
+        import datetime
+        import warnings
+
+        import numpy as np
+        import pandas as pd
+
+        from pyvc import replay
+
+        q = replay.real_module("ioos_qc.qartod")
+        lo, hi, times, xs, want = self.FAR[values["far"]]
+        conv = {"iso": lambda s_: s_, "timestamp": pd.Timestamp, "date": lambda s_: datetime.datetime(*[int(p_) for p_ in s_.split("-")]), "datetime64": np.datetime64}[values["style"]]
+        a, b = (conv(lo), conv(hi)) if values["order"] == "sorted" else (conv(hi), conv(lo))
+        try:
+            with warnings.catch_warnings():
+                warnings.simplefilter("ignore")
+                if values["layout"] == "object":
+                    cfg = q.ClimatologyConfig()
+                    cfg.add(tspan=(a, b), vspan=(10, 20))
+                else:
+                    cfg = [{"tspan": [a, b], "vspan": [10, 20]}]
+                fl = q.climatology_test(cfg, np.array(xs), np.array(times, dtype="datetime64[ns]"), np.zeros(len(xs)))
+                got = np.ma.filled(np.ma.masked_array(fl), 255).astype(int).tolist()
+        except Exception as ex:  # noqa: BLE001
+            return "tspan=(%r, %r): raised %r" % (a, b, ex)
+        if got != want:
+            return "tspan=(%r, %r), observations at %s: flags %s, the window rule gives %s" % (a, b, times, got, want)
+        return None
+
     def bounded_checks(self, tier, rng):
         for a, b in self.PAIRS:
             for x, y in ((a, b), (b, a)):
@@ -525,9 +561,15 @@ class ClimAddSpellings(Case):
                     for seq in ("tuple", "list"):
                         v = {"a": list(x), "b": list(y), "style": style, "seq": seq}
                         yield ("spelling", "spelling", v, (lambda v=v: self.one(v)))
+        for k in range(len(self.FAR)):
+            for style in ("iso", "timestamp", "date", "datetime64"):
+                for order in ("sorted", "reversed"):
+                    for layout in ("object", "list"):
+                        v = {"far": k, "style": style, "order": order, "layout": layout}
+                        yield ("spelling", "spelling", v, (lambda v=v: self.one_far(v)))
 
     def replay_bounded(self, label, values):
-        return self.one(values)
+        return self.one_far(values) if "far" in values else self.one(values)
 
 
 def _num(x):
